@@ -209,6 +209,7 @@ class State:
         self.heap: Dict[tuple, Val] = {}  # (objkey, attr) -> Val for attribute stores
         self.bounds: List[tuple] = []  # (var, count) for active bound variables
         self.notes: List[str] = []
+        self.sgn: Dict[Any, str] = {}  # compositional sign of value numbers built on this path
 
     def fork(self) -> "State":
         s = State()
@@ -220,6 +221,7 @@ class State:
         s.heap = {k: copy.deepcopy(v) if isinstance(v, (DictV, ListV)) else v for k, v in self.heap.items()}
         s.bounds = list(self.bounds)
         s.notes = list(self.notes)
+        s.sgn = dict(self.sgn)
         return s
 
     def site(self, kind, node, **data):
@@ -251,6 +253,39 @@ class Interp:
         self.unmodelled: List[Tuple[ast.AST, str]] = []
         self.if_convert = False
         self._idiom = None
+        self.sign_env_factory = None  # callable(facts) -> sign.SignEnv ; enables compositional sign tracking
+
+    def sg(self, st: "State", f: Frac):
+        if self.sign_env_factory is None:
+            return None
+        from .sign import SignEnv
+
+        env = self.sign_env_factory(tuple(st.facts) + tuple(("bound", v, c) for v, c in st.bounds))
+        base = env.frac(f)
+        got = st.sgn.get(f)
+        s = SignEnv._meet(got, base) if got else base
+        if s in ("NONNEG", "NONPOS") and env.fact_nonzero(f):
+            s = "POS" if s == "NONNEG" else "NEG"
+        return s
+
+    def _track(self, st: "State", op, a: Frac, b: Frac, r: Frac):
+        if self.sign_env_factory is None:
+            return
+        from . import sign as S
+
+        sa, sb = self.sg(st, a), self.sg(st, b)
+        if op is ast.Add:
+            comp = S.s_add(sa, sb)
+        elif op is ast.Sub:
+            comp = S.s_add(sa, S.s_neg(sb))
+        elif op is ast.Mult:
+            comp = S.s_mul(sa, sb)
+        elif op is ast.Div:
+            comp = S.s_mul(sa, S.s_inv(sb))
+        else:
+            return
+        cur = self.sg(st, r)
+        st.sgn[r] = S.SignEnv._meet(comp, cur) if comp != "ANY" else cur
 
     def merge_if(self, node, cps):
         """if-conversion of a jump-free `if`: run both arms, merge differing locals into ite values.
@@ -569,7 +604,7 @@ class Interp:
         if isinstance(v, Num):
             if v.f.is_const():
                 return v.f.const_value() != 0
-            st.site("truthy", node, value=v.f, idiom=getattr(self, "_idiom", None))
+            st.site("truthy", node, value=v.f, idiom=getattr(self, "_idiom", None), value_sign=self.sg(st, v.f))
             return ("truthy", v.f)
         if isinstance(v, Str):
             return ("truthy-str", v.s) if "<" in v.s else bool(v.s)
@@ -671,16 +706,24 @@ class Interp:
             return Opaque(f"binop on {type(l).__name__},{type(r).__name__}")
         a, b = l.f, r.f
         if op is ast.Add:
-            return Num(a + b)
+            r = a + b
+            self._track(st, op, a, b, r)
+            return Num(r)
         if op is ast.Sub:
-            return Num(a - b)
+            r = a - b
+            self._track(st, op, a, b, r)
+            return Num(r)
         if op is ast.Mult:
-            return Num(a * b)
+            r = a * b
+            self._track(st, op, a, b, r)
+            return Num(r)
         if op is ast.Div:
-            st.site("div", node, num=a, den=b, op="/")
+            st.site("div", node, num=a, den=b, op="/", den_sign=self.sg(st, b))
             if b.is_zero():
                 return Opaque("division by literal zero")
-            return Num(a / b)
+            r = a / b
+            self._track(st, op, a, b, r)
+            return Num(r)
         if op is ast.FloorDiv:
             st.site("div", node, num=a, den=b, op="//")
             return Num(mk_fn("floordiv", a, b))
@@ -774,7 +817,18 @@ class Interp:
         b = self.expr(node.orelse, st)
         st.facts.pop()
         if isinstance(a, Num) and isinstance(b, Num):
-            return Num(mk_ite(c, a.f, b.f))
+            r = mk_ite(c, a.f, b.f)
+            if self.sign_env_factory is not None:
+                from . import sign as S
+
+                st.facts.append(c)
+                sa = self.sg(st, a.f)
+                st.facts.pop()
+                st.facts.append(c_not(c))
+                sb = self.sg(st, b.f)
+                st.facts.pop()
+                st.sgn[r] = S.s_join(sa, sb)
+            return Num(r)
         if isinstance(a, NoneV) and isinstance(b, NoneV):
             return a
         return Obj("ite", (c, a, b))
